@@ -138,3 +138,7 @@ Example comp_mod_example :
   comp_cir e2 0 = XBin CMod (XVar 1) (XLit 4) /\
   wf_cir e1 = true /\ flags_sound (fun _ => 0) (fun _ _ => 0) e1.
 Proof. cbv. repeat split; try reflexivity; try discriminate; intros; discriminate. Qed.
+
+Lemma floor_helpers_correct : forall n q, 0 < q ->
+  exo_floor_div n q = n / q /\ exo_floor_mod n q = n mod q.
+Proof. intros n q H. split; [apply exo_floor_div_correct | apply exo_floor_mod_correct]; exact H. Qed.
